@@ -3,6 +3,7 @@
 import json, os, shutil, subprocess, sys
 VERIF = os.path.dirname(os.path.dirname(os.path.abspath(__file__)))
 wt, prop, name = sys.argv[1], sys.argv[2], sys.argv[3]
+round_ = sys.argv[4] if len(sys.argv) > 4 else '1'
 d = os.path.join(VERIF, 'seeded', name)
 os.makedirs(d, exist_ok=True)
 diff = subprocess.check_output(['git', '-C', wt, 'diff', '--', 'src']).decode()
@@ -12,7 +13,7 @@ for f in ('demo.py', 'notes.md'):
         shutil.copy(os.path.join(wt, f), os.path.join(d, f))
 notes = open(os.path.join(d, 'notes.md')).read() if os.path.exists(os.path.join(d, 'notes.md')) else ''
 json.dump({'name': name, 'breaks': prop, 'expected_to_fire': [prop], 'what': (notes.strip().splitlines() or [''])[0].lstrip('# ').strip(),
-           'needs': 'see notes.md', 'origin': 'independent sub-agent given only the property text and a scratch worktree',
+           'needs': 'see notes.md', 'origin': 'independent sub-agent (round %s) given only the property text and a scratch worktree' % round_,
            'verified': 'tools/audit.py: patch applies to /repo HEAD, 689 unit tests pass with it, demo.py exits 1 with / 0 without the change'},
           open(os.path.join(d, 'meta.json'), 'w'), indent=1)
 print('imported', d, len(diff.splitlines()), 'diff lines')
